@@ -12,7 +12,13 @@ import (
 	"golang.org/x/tools/go/ssa/ssautil"
 )
 
-const repoDir = "/repo"
+// repoDir is /repo; the self-test (and only it) points govc at a scratch worktree through GOVC_REPO.
+var repoDir = func() string {
+	if d := os.Getenv("GOVC_REPO"); d != "" {
+		return d
+	}
+	return "/repo"
+}()
 const modPath = "github.com/nuetzliches/hookaido"
 
 // Program is the loaded view of /repo's working tree.
